@@ -50,7 +50,12 @@ func main() {
 	rep := report.New("C08", tier, "exploration")
 	rep.Rule = "E1 lattice: projection parameterisations (merc 6, lcc/aea/eqdc 6 standard-parallel pairs each incl. 1SP, reversed and southern cones, tmerc 4 incl. omitted lat_0/k/false origin, utm all 120 zone/hemisphere values, krovak 2) x options one at a time (WGS84 datum, 7- and 3-term towgs84, ft, us-ft, sphere; for the first parameterisation of each projection (thorough: all) additionally a+rf, a+b, two prime meridians, every built-in ellipsoid and every built-in datum) x 20-63 positions spanning the usable region incl. its borders. Per (definition, position): G1 own geographic base -> projected -> geographic within 1e-6 deg and projected again within 1 cm; G2 the same from WGS84 long/lat through the datum shift; no error. Non-trivial = definitions with a non-default option or ellipsoid."
 	rep.Assumptions = []string{"numerical property over a continuum: only the lattice points are covered", "only self-consistent definitions are generated (ellipsoid given once, no sphere with a named datum)"}
-	defs := projlib.Lattice(tier == "thorough")
+	var defs []projlib.Def
+	for _, d := range projlib.Lattice(tier == "thorough") {
+		if !d.C09Only {
+			defs = append(defs, d)
+		}
+	}
 	rep.Set("definitions", len(defs))
 	var n, nontrivial int64
 	type failing struct {
